@@ -274,10 +274,13 @@ def tasks_outstanding_goal : Prop :=
     (tafter k n t0 ops).base.value + (tafter k n t0 ops).tasks.countP (holds (tafter k n t0 ops).base.futs)
       ≤ (init k n t0).initial
 
-/-- GOAL (tie-only; compared on every `Model` case by the harness, field `lift_agrees`): with no workers the layer is
-`Model.step` -/
+/-- GOAL (tie-only; compared on every `Model` case by the harness, field `lift_agrees`): along every history of
+`Model` ops from the initial state the layer produces the outputs of `Model.run` (for arbitrary, unreachable states the
+two differ: a refused `release` is not followed by a drain in `Model.step`) -/
 def lift_agrees_goal : Prop :=
-  ∀ (s : St) (op : Op), (tstep { base := s, tasks := [] } (liftOp op)).1.base = (step s op).1 ∧
-    (tstep { base := s, tasks := [] } (liftOp op)).2.evs = (step s op).2.evs
+  ∀ (k : Kind) (n t0 : Nat) (ops : List Op),
+    (trun (tinit k n t0) (ops.map liftOp)).2.map
+        (fun o => (o.res.head?, o.evs, o.value, o.nwaiters, o.timeouts, o.ntimers)) =
+      (run (init k n t0) ops).2.map (fun o => (some o.res, o.evs, o.value, o.nwaiters, o.timeouts, o.ntimers))
 
 end TornadoModel.C33.Tasks
